@@ -15,6 +15,8 @@ import (
 	"runtime"
 	"sort"
 	"strings"
+	"sync"
+	"sync/atomic"
 	"time"
 
 	"github.com/my-cloud/ruthenium/validatornode/application"
@@ -514,6 +516,41 @@ func decodeBlocks(b []byte) []*ledger.Block {
 }
 
 func (w *World) Sync(n *node.Node, now int64, neigh []Neighbour) (*Verdict, SyncStats) {
+	return w.syncWith(n, now, neigh, nil, "sync", nil, nil)
+}
+
+// SyncTick runs a sync round during which — while the round waits for the first neighbour's answer — the node's own
+// validation tick (block production at ts) runs to completion.
+func (w *World) SyncTick(n *node.Node, now int64, neigh []Neighbour, ts int64) (*Verdict, SyncStats) {
+	d := &defs{}
+	pool := append([]*ledger.Transaction(nil), n.Pool.Transactions()...)
+	perm := Perm(ts, len(pool))
+	ids := []string{}
+	for _, i := range perm {
+		ids = append(ids, pool[i].Id())
+	}
+	last := n.Chain.LastBlockTimestamp()
+	for _, t := range pool {
+		w.noteTx(d, t, last+w.S.Interval)
+	}
+	var pre [][4]interface{}
+	for _, t := range pool {
+		w.valsFor(&pre, t, ts, last+w.S.Interval)
+	}
+	inside := func() {
+		defer w.guard("tick")
+		n.Pool.Validate(ts)
+	}
+	return w.syncWith(n, now, neigh, inside, "synctick", map[string]interface{}{"ts": ts, "perm": ids, "_pre": pre}, d)
+}
+
+func (w *World) syncWith(n *node.Node, now int64, neigh []Neighbour, inside func(), opName string, more map[string]interface{}, d0 *defs) (*Verdict, SyncStats) {
+	var once sync.Once
+	var fired atomic.Bool
+	if inside != nil {
+		f := inside
+		inside = func() { fired.Store(true); f() }
+	}
 	type served struct {
 		h     uint64
 		bytes []byte
@@ -530,6 +567,9 @@ func (w *World) Sync(n *node.Node, now int64, neigh []Neighbour) (*Verdict, Sync
 		senders = append(senders, &node.Sender{TargetValue: nb.Target, Blocks: func(h uint64) ([]byte, error) {
 			c := calls
 			calls++
+			if inside != nil {
+				once.Do(inside)
+			}
 			if nb.Silent {
 				rec[i] = append(rec[i], served{h, nil, false, 0})
 				<-release
@@ -559,7 +599,10 @@ func (w *World) Sync(n *node.Node, now int64, neigh []Neighbour) (*Verdict, Sync
 		time.Sleep(2 * time.Millisecond)
 		g1 = runtime.NumGoroutine()
 	}
-	d := &defs{}
+	d := d0
+	if d == nil {
+		d = &defs{}
+	}
 	var extra []*ledger.Block
 	resps := []map[string]interface{}{}
 	// an answer that arrived after the node's real-time timeout is, for the node, no answer.  The node logs one
@@ -636,8 +679,15 @@ func (w *World) Sync(n *node.Node, now int64, neigh []Neighbour) (*Verdict, Sync
 		resps = append(resps, r)
 		w.Hist["neigh:"+nb.Kind]++
 	}
-	line := map[string]interface{}{"op": "sync", "node": n.Name, "now": now, "resps": resps}
-	v := w.finishMerged(line, n, d, extra, "sync")
+	if inside != nil && !fired.Load() {
+		// no neighbour was asked (no neighbour, or an empty chain): the tick did not run — a plain round
+		opName, more = "sync", nil
+	}
+	line := map[string]interface{}{"op": opName, "node": n.Name, "now": now, "resps": resps}
+	for k, x := range more {
+		line[k] = x
+	}
+	v := w.finishMerged(line, n, d, extra, opName)
 	st := SyncStats{el.Milliseconds(), g1 - g0}
 	if g1 > g0 {
 		w.Failures = append(w.Failures, Failure{"harness", fmt.Sprintf("C13 goroutines %d -> %d after the sync round", g0, g1), len(w.Lines) - 1, "sync"})
